@@ -31,19 +31,21 @@ def run(tier):
                 return True
             return False
         vlib.binding_selftest(c, "Trace_Total", tr, corrupt, label="inject-panic", xmx="16g", timeout=3000)
-        # growth (Coded.tla): census of the coded accessors as partial functions.  C04 quantifies over the decoding entry points and the
-        # radial conversion, not over accessors or Debug, so this is recorded as a hazard outside the listed properties, never a verdict.
-        m = vlib.tlc("Coded", "Coded", run_dir=c.run_dir, workers=1, coverage=False, timeout=600)
-        out, dt = vlib.vdrive(["coded", "record", "--out", c.path("coded.ndjson"), "--res", c.path("coded.res"), "--seed", c.seed, "--tier", c.tier], timeout=1800)
-        v = vlib.tlc("Trace_Coded", "Trace_Coded", run_dir=c.run_dir, env={"TRACE": c.path("coded.ndjson")}, workers=1, coverage=False, timeout=600)
-        for d in v.tuples("DRIFT"):
-            c.mismatches.append({"t": "mismatch", "kind": "drift", "sig": d[1], "detail": "accessor census differs from Coded.tla at line %s" % d[2], "case": None})
-        census = vlib.read_ndjson(c.path("coded.ndjson"))
-        c.extra["hazards_outside_the_listed_properties"] = {"Coded": {
-            "tlc_counterexample_to": "AccessorTotal", "found": m.violated == "AccessorTotal",
-            "reproduced_on_real_code": bool(census) and all(e["panics"] > 0 for e in census) and not v.tuples("DRIFT"),
-            "accessors_that_panic_outside_their_documented_codes": {e["acc"]: {"returns_for": e["returns_for"], "first_panic": e["first_panic"], "debug_of_the_decoded_value_panics_too": e["debug_panics_at"] >= 0} for e in census}}}
-        vlib.log("  [H] hazards (informational): %d coded accessors panic outside their documented codes; census matches Coded.tla: %s" % (len(census), not v.tuples("DRIFT")))
+    # growth (Coded.tla): census of the coded accessors as partial functions.  C04 quantifies over the decoding entry points and the
+    # radial conversion, not over accessors or Debug, so this is recorded as a hazard outside the listed properties, never a verdict.
+    m = vlib.tlc("Coded", "Coded", run_dir=c.run_dir, workers=1, coverage=False, timeout=600)
+    out, dt = vlib.vdrive(["coded", "record", "--out", c.path("coded.ndjson"), "--res", c.path("coded.res"), "--seed", c.seed, "--tier", c.tier], timeout=1800)
+    v = vlib.tlc("Trace_Coded", "Trace_Coded", run_dir=c.run_dir, env={"TRACE": c.path("coded.ndjson")}, workers=1, coverage=False, timeout=600)
+    for d in v.tuples("DRIFT"):
+        c.mismatches.append({"t": "mismatch", "kind": "drift", "sig": d[1], "detail": "accessor census differs from Coded.tla at line %s" % d[2], "case": None})
+    lines = vlib.read_ndjson(c.path("coded.ndjson"))
+    census = [e for e in lines if "panics" in e]
+    c.extra["coded_accessor_meanings_and_scalings_checked"] = sorted(e["acc"] for e in lines if "panics" not in e)
+    c.extra["hazards_outside_the_listed_properties"] = {"Coded": {
+        "tlc_counterexample_to": "AccessorTotal", "found": m.violated == "AccessorTotal",
+        "reproduced_on_real_code": bool(census) and all(e["panics"] > 0 for e in census) and not v.tuples("DRIFT"),
+        "accessors_that_panic_outside_their_documented_codes": {e["acc"]: {"returns_for": e["returns_for"], "first_panic": e["first_panic"], "debug_of_the_decoded_value_panics_too": e["debug_panics_at"] >= 0} for e in census}}}
+    vlib.log("  [H] hazards (informational): %d coded accessors panic outside their documented codes; census matches Coded.tla: %s" % (len(census), not v.tuples("DRIFT")))
     return c.finish()
 
 
